@@ -6,20 +6,22 @@ import (
 	"fmt"
 	"net"
 	"strconv"
+	"sync/atomic"
 	"time"
 )
 
 // ReplyTimeout bounds the wait for the reply of a non-blocking command. It is a liveness bound
 // ("within bounded time"), three to four orders of magnitude above the normal latency (~50 µs).
-var ReplyTimeout = 10 * time.Second
+var ReplyTimeout = 20 * time.Second
 
 // Conn is a raw RESP connection with a strict reply parser.
 type Conn struct {
-	C     net.Conn
-	Proto int // 2 or 3: which reply types the strict parser accepts
-	buf   []byte
-	Raw   bytes.Buffer // all reply bytes consumed so far (when KeepRaw)
+	C       net.Conn
+	Proto   int // 2 or 3: which reply types the strict parser accepts
+	buf     []byte
+	Raw     bytes.Buffer // all reply bytes consumed so far (when KeepRaw)
 	KeepRaw bool
+	stalled bool
 }
 
 func Dial(addr string) (*Conn, error) {
@@ -122,10 +124,34 @@ func (c *Conn) Drain(d time.Duration) []byte {
 
 // Do sends one command and reads its reply.
 func (c *Conn) Do(argv ...string) (Value, error) {
+	if c.stalled {
+		return Value{}, ErrTimeout
+	}
 	if err := c.Write(EncodeCmd(argv...)); err != nil {
 		return Value{}, err
 	}
-	return c.Read(ReplyTimeout)
+	v, err := c.Read(ReplyTimeout)
+	if err == ErrTimeout {
+		// a command that got no reply within ReplyTimeout: counted, and the connection is given up
+		// (later calls fail at once), so that a workload against a wedged server ends instead of
+		// waiting ReplyTimeout for every remaining command
+		c.stalled = true
+		Stalls.Add(1)
+		lastStall.Store(fmt.Sprintf("%q", argv))
+	}
+	return v, err
+}
+
+// Stalls counts Do calls that got no reply within ReplyTimeout (see StallError).
+var Stalls atomic.Int64
+var lastStall atomic.Value
+
+// StallError reports commands that went unanswered since the counter stood at before.
+func StallError(before int64) error {
+	if n := Stalls.Load() - before; n > 0 {
+		return fmt.Errorf("%d command(s) got no reply within %v (the last one: %v): the server stopped answering", n, ReplyTimeout, lastStall.Load())
+	}
+	return nil
 }
 
 // MustDo is Do that converts transport problems into an error value description.
